@@ -7,16 +7,9 @@ import (
 	"verif/harness/internal/core"
 )
 
-// `url <hex>`: net/url.Parse on the domain of the byte-level model (printable ASCII without '%').
+// `url <hex>`: net/url.Parse against the byte-level model (any byte string).
 
-func urlInDomain(s string) bool {
-	for i := 0; i < len(s); i++ {
-		if b := s[i]; b < 32 || b > 126 || b == '%' {
-			return false
-		}
-	}
-	return true
-}
+func urlInDomain(s string) bool { return true } // the model is total
 
 func (p *prop) runURL(f []string) core.Outcome {
 	bad := core.Outcome{Impl: "bad-op", Tags: []string{"bad-op", "trivial"}}
@@ -49,17 +42,23 @@ func (p *prop) runURL(f []string) core.Outcome {
 
 var urlPieces = []string{
 	"http", "https", "HTTP", "file", "a+b.c-d", "1x", "", ":", "://", "//", "///", "/", "localhost", "example.com", "127.0.0.1", "[::1]", "[fe80::1", "::1]",
+	"%25", "%41", "%zz", "%", "%2", "%C3%A9", "%20", "%2F", "%80", "%7f", "%3A", "eth0", "\xc3\xa9", "\x80", "\x7f", "\x01", "\t",
 	":2019", ":80", ":", ":x", ":8a", "@", "user", "user:pw", "u s", "?", "?q=1", "#", "#frag", "path/x", "*", "null", ".", "-", "+", " ", "\\", "^", "|", "{", "<", ">", "\"", "'", "!", "$", "&", "(", ")", ",", ";", "=", "~", "_", "[", "]",
 }
 
 func genURL(rng *core.Rand) string {
 	var sb strings.Builder
-	switch rng.Intn(4) {
+	switch rng.Intn(5) {
 	case 0: // scheme://host[:port][/path]
 		sb.WriteString(rng.Pick([]string{"http", "https", "HTTP", "ws", "file", "a+b"}) + "://")
-		sb.WriteString(rng.Pick([]string{"localhost", "example.com", "127.0.0.1", "[::1]", "u@h", "u:p@h", "", "h h", "[::1", "a_b", "A.B"}))
+		sb.WriteString(rng.Pick([]string{"localhost", "example.com", "127.0.0.1", "[::1]", "u@h", "u:p@h", "", "h h", "[::1", "a_b", "A.B", "h%41", "h%C3%A9", "h%25", "u%41:p%zz@h", "u%4@h", "h\xc3\xa9", "u\xc3@h", "h%2"}))
 		sb.WriteString(rng.Pick([]string{"", ":2019", ":80", ":", ":x", ":1:2"}))
 		sb.WriteString(rng.Pick([]string{"", "/", "/p?q#f", "?q", "#f", "/a:b"}))
+	case 1: // IPv6 literals with zones and escapes
+		sb.WriteString(rng.Pick([]string{"http://", "//", "https://u@", "x://"}))
+		sb.WriteString("[" + rng.Pick([]string{"::1", "fe80::1", "fe80::1%25eth0", "fe80::1%25eth%200", "fe80::1%25%41", "fe80::1%25%C3", "fe80::1%eth0", "fe80::1%2541", "::1%25", "%25::1", "fe80::1%25a/b", "fe80::1%25a b", "fe80::1%25a%2Fb"}) + "]")
+		sb.WriteString(rng.Pick([]string{"", ":2019", ":", ":x", "x", ":%32"}))
+		sb.WriteString(rng.Pick([]string{"", "/", "/p%41", "/p%4", "#f%zz", "#f%41", "?q%zz"}))
 	default:
 		for n := rng.Intn(7); n > 0; n-- {
 			sb.WriteString(rng.Pick(urlPieces))
